@@ -194,11 +194,11 @@ def A10_descending_contract(repo, clause):
             if any(isinstance(x, ast.Name) and x.id == P for x in ast.walk(a0)):
                 obs.append(Ob("A10", clause, callee, c, not iterative,
                               "np.searchsorted needs its first argument in ASCENDING order, but the same parameter `%s` must be DESCENDING for the iterative re-index "
-                              "(and every caller passes sorted(..., reverse=True)): the binary search misses deleted atoms" % P, slot="searchsorted-order", positive=True))
+                              "(and every caller passes sorted(..., reverse=True)): the binary search misses deleted atoms" % P, slot="searchsorted-order", positive="robust"))
         if call_name(c) in ("isin", "in1d", "intersect1d", "setdiff1d") and const_value(kwarg(c, "assume_unique")) is True:
             obs.append(Ob("A10", clause, callee, c, False,
                           "%s(..., assume_unique=True) on the term array: atoms occur in several terms, so the array is NOT unique and numpy's sort-based "
-                          "path returns wrong membership" % call_name(c), slot="assume-unique", positive=True))
+                          "path returns wrong membership" % call_name(c), slot="assume-unique", positive="robust"))
     pm = sorted(p for p in repo.effects.mut[callee] if p == P)
     obs.append(Ob("A10", clause, callee, callee.node, not pm,
                   "the re-index helper %s its index argument `%s`; __delitem__ passes the SAME list for bonds, angles, dihedrals and impropers" % (
